@@ -6,6 +6,7 @@ CONSTANTS
   CPLX = 1
   Ascii = FALSE
   PerLine = 3
+  RowOffset = 0
   WriterOnly = TRUE
   Export = TRUE
 INIT Init
